@@ -7,18 +7,36 @@
    cal = [mina, maxa, minp, maxp] in milli-units.                                                        *)
 EXTENDS Integers, Sequences, TLC
 
-VARIABLES side, cal, angle, pulse, cmd, res, last
+VARIABLES
+    \* @type: Str;
+    side,
+    \* @type: { mina: Int, maxa: Int, minp: Int, maxp: Int };
+    cal,
+    \* @type: Int;
+    angle,
+    \* @type: Int;
+    pulse,
+    \* @type: { op: Str, v: Int };
+    cmd,
+    \* @type: Str;
+    res,
+    \* @type: { act: Str, v: Int };
+    last
 vars == <<side, cal, angle, pulse, cmd, res, last>>
 \* cmd: what the last call sent to the servo library: [op |-> "none"|"write"|"us", v |-> integer]
 
+\* @type: (Str, Int) => { act: Str, v: Int };
 Call(act, v) == [act |-> act, v |-> v]
 NoCall == Call("none", 0)
 NoCmd == [op |-> "none", v |-> 0]
 Abs(x) == IF x < 0 THEN -x ELSE x
+\* @type: ({ mina: Int, maxa: Int, minp: Int, maxp: Int }) => Int;
 SpanA(c) == c.maxa - c.mina
+\* @type: ({ mina: Int, maxa: Int, minp: Int, maxp: Int }) => Int;
 SpanP(c) == c.maxp - c.minp
 ClampTo(v, lo, hi) == IF v < lo THEN lo ELSE IF v > hi THEN hi ELSE v
 
+\* @type: ({ mina: Int, maxa: Int, minp: Int, maxp: Int }, { act: Str, v: Int }) => Bool;
 Valid(c, k) ==
     CASE k.act = "write" -> c.mina <= k.v /\ k.v <= c.maxa
       [] k.act = "write_us" -> c.minp <= k.v /\ k.v <= c.maxp
@@ -26,14 +44,17 @@ Valid(c, k) ==
 
 (* angle a and pulse p correspond under the configured linear map when each is known to within tol milli-units:
    | (p - minp) * spanA - (a - mina) * spanP | <= tol * (spanA + spanP)   (all products stay below 2^31) *)
+\* @type: ({ mina: Int, maxa: Int, minp: Int, maxp: Int }, Int, Int, Int) => Bool;
 Corresponds(c, a, p, tol) ==
     Abs((p - c.minp) * (SpanA(c) \div 1000) - (a - c.mina) * (SpanP(c) \div 1000))
         <= tol * ((SpanA(c) \div 1000) + (SpanP(c) \div 1000))
+\* @type: ({ mina: Int, maxa: Int, minp: Int, maxp: Int }, Int, Int, Int) => Bool;
 InBounds(c, a, p, tol) ==
     /\ c.mina - tol <= a /\ a <= c.maxa + tol
     /\ c.minp - tol <= p /\ p <= c.maxp + tol
 
 (* Step relation.  tolV: tolerance on a directly commanded value, tolD: on the derived one (milli-units). *)
+\* @type: (Str, { mina: Int, maxa: Int, minp: Int, maxp: Int }, { angle: Int, pulse: Int }, { act: Str, v: Int }, { angle: Int, pulse: Int }, { op: Str, v: Int }, Str, Int, Int) => Bool;
 StepTol(sd, c, s, k, t, m, r, tolV, tolD) ==
     IF sd = "host" /\ ~Valid(c, k) THEN r = "raise" /\ t = s /\ m = NoCmd
     ELSE /\ r = "ok"
@@ -44,9 +65,11 @@ StepTol(sd, c, s, k, t, m, r, tolV, tolD) ==
             /\ sd = "fw" => /\ m.op = (IF k.act = "write" THEN "write" ELSE "us")
                             /\ 2 * Abs(1000 * m.v - v) <= 1000           \* nearest whole unit (within one half)
             /\ sd = "host" => m = NoCmd
+\* @type: (Str, { mina: Int, maxa: Int, minp: Int, maxp: Int }, { angle: Int, pulse: Int }, { act: Str, v: Int }, { angle: Int, pulse: Int }, { op: Str, v: Int }, Str) => Bool;
 Step(sd, c, s, k, t, m, r) ==
     IF sd = "host" THEN StepTol(sd, c, s, k, t, m, r, 1, 2) ELSE StepTol(sd, c, s, k, t, m, r, 6, 7)
 
+\* @type: (Str, { mina: Int, maxa: Int, minp: Int, maxp: Int }, { angle: Int, pulse: Int }, { act: Str, v: Int }, { angle: Int, pulse: Int }, { op: Str, v: Int }, Str) => Str;
 StepDiff(sd, c, s, k, t, m, r) ==
     IF Step(sd, c, s, k, t, m, r) THEN ""
     ELSE IF sd = "host" /\ ~Valid(c, k) THEN (IF r # "raise" THEN "invalid-call-accepted" ELSE "failed-call-changed-state")
@@ -63,15 +86,23 @@ StepDiff(sd, c, s, k, t, m, r) ==
    with min_angle < 0) the cast truncates toward zero (-44.7 -> -44, nearest is -45).  Exact match: everything else about the step
    holds, the call is write() of a negative value, and the device command is exactly that truncation. *)
 TruncHalfUp(v) == LET w == v + 500 IN IF w >= 0 THEN w \div 1000 ELSE -((-w) \div 1000)
+\* @type: (Str, { mina: Int, maxa: Int, minp: Int, maxp: Int }, { act: Str, v: Int }, { angle: Int, pulse: Int }, { op: Str, v: Int }, Str) => Bool;
 KnownNegativeRound(sd, c, k, t, m, r) ==
     /\ sd = "fw" /\ r = "ok" /\ k.act = "write"
     /\ LET v == ClampTo(k.v, c.mina, c.maxa) IN
        /\ v < 0 /\ Abs(t.angle - v) <= 6 /\ Corresponds(c, t.angle, t.pulse, 7) /\ InBounds(c, t.angle, t.pulse, 6)
        /\ m.op = "write" /\ m.v = TruncHalfUp(v) /\ 2 * Abs(1000 * m.v - v) > 1000
 -----------------------------------------------------------------------------
-CONSTANTS Cals, Angles, Pulses        \* Angles/Pulses: offsets in milli-units relative to the calibration bounds
+CONSTANTS
+    \* @type: Set({ mina: Int, maxa: Int, minp: Int, maxp: Int });
+    Cals,
+    \* @type: Set(Int);
+    Angles,
+    \* @type: Set(Int);
+    Pulses        \* Angles/Pulses: offsets in milli-units relative to the calibration bounds
 St(a, p) == [angle |-> a, pulse |-> p]
 Cur == St(angle, pulse)
+\* @type: ({ mina: Int, maxa: Int, minp: Int, maxp: Int }) => Set({ act: Str, v: Int });
 Calls(c) == {Call("write", c.mina + o) : o \in Angles} \cup {Call("write", c.maxa + o) : o \in Angles}
             \cup {Call("write", (c.mina + c.maxa) \div 2)}
             \cup {Call("write", c.minp), Call("write", (c.minp + c.maxp) \div 2)}   \* "angles" that are numerically pulse widths: still angles
@@ -82,6 +113,7 @@ RoundDiv(n, d) == (2 * n + d) \div (2 * d)          \* nearest integer, d > 0
 Init == /\ side \in {"host", "fw"} /\ cal \in Cals
         /\ angle = cal.mina /\ pulse = cal.minp /\ cmd = NoCmd /\ res = "init" /\ last = NoCall
 
+\* @type: ({ act: Str, v: Int }) => Bool;
 Do(k) ==
     /\ last' = k /\ UNCHANGED <<side, cal>>
     /\ IF side = "host" /\ ~Valid(cal, k)
